@@ -96,6 +96,15 @@ def run(ctx):
         ctx.coverage["malformed_inputs"] = sum(1 for r in lg if r["ev"] == "malformed")
         ctx.sample({"kind": "malformed input record", "record": next(r for r in lg if r["ev"] == "malformed")})
         validate(ctx, lout, wd, "links")
+        # a profile that passes validation can be started (first encrypted segment) without a crash; user names around the 64-byte limit
+        sout = os.path.join(wd, "start.ndjson")
+        rc, log, _ = vlib.go_test("./c20/", "TestStart$", env={"VERIF_OUT": sout}, timeout=600)
+        if rc != 0 or not os.path.exists(sout):
+            raise Inconclusive("driver TestStart failed:\n" + log[-3000:])
+        sg = vlib.read_ndjson(sout)
+        ctx.coverage["evaluations"] += len(sg)
+        ctx.coverage["profiles_started"] = sum(1 for r in sg if r["valid"])
+        validate(ctx, sout, wd, "start")
     finally:
         shutil.rmtree(wd, ignore_errors=True)
 
